@@ -222,16 +222,50 @@ func c19Contiguity(c *Ctx) {
 		c.undecided("C19.i", pkgName+"/placements", 0, "no AddChild / NewSubSurface call found in the package: nothing lays the items out")
 		return
 	}
+	var models []*c19AccModel
 	for _, lf := range order {
-		c19ContiguityFn(c, lf, layout)
+		models = append(models, c19ContiguityFn(c, lf, layout))
 	}
+	// the order of the children (C19.o) and the front-insertion obligation of C19.i: c19o.go
+	c19ListOrder(c, models, layout)
 	c19RangeCopies(c, pkgName)
 }
 
-func c19ContiguityFn(c *Ctx, lf *c19LayoutFn, layout map[*types.Func]*c19LayoutFn) {
+// c19AccModel: the layout accumulator of one layout function and the events on it (shared by the
+// contiguity typestate below and by the order typestate of c19o.go).
+type c19AccModel struct {
+	c       *Ctx
+	fi      *FuncInfo
+	info    *types.Info
+	acc     *types.Var
+	isParam bool
+	layout  map[*types.Func]*c19LayoutFn
+}
+
+type c19AccEvent struct {
+	kind string // place, advance, reserve, rederive, clobber, foreign, childstore
+	obj  types.Object
+	pos  token.Pos
+	node ast.Node
+}
+
+func c19ObjName(o types.Object) string {
+	if o == nil {
+		return "?"
+	}
+	return o.Name()
+}
+
+func (m *c19AccModel) isAcc(e ast.Expr) bool {
+	id, ok := unparen(e).(*ast.Ident)
+	return ok && m.info.ObjectOf(id) == types.Object(m.acc)
+}
+
+// c19NewAccModel finds the accumulator (nil: the function has no layout placement at an accumulated row, or
+// the shape is not understood - then `report` says so).
+func c19NewAccModel(c *Ctx, lf *c19LayoutFn, layout map[*types.Func]*c19LayoutFn, report bool) *c19AccModel {
 	fi := lf.fi
 	info := fi.Pkg.TypesInfo
-	g := c.P.Graph(fi)
 	// the accumulator: the one local that is the row of every placement
 	var acc *types.Var
 	for _, s := range lf.sites {
@@ -246,45 +280,48 @@ func c19ContiguityFn(c *Ctx, lf *c19LayoutFn, layout map[*types.Func]*c19LayoutF
 		}
 		v := c19PlainVar(info, row)
 		if v == nil {
-			c.undecided("C19.i", fi.Name+"/row of placement", s.Pos(), "the row of a placement is %s, not a plain accumulator variable", types.ExprString(row))
-			return
+			if report {
+				c.undecided("C19.i", fi.Name+"/row of placement", s.Pos(), "the row of a placement is %s, not a plain accumulator variable", types.ExprString(row))
+			}
+			return nil
 		}
 		if acc != nil && acc != v {
-			c.undecided("C19.i", fi.Name+"/row of placement", s.Pos(), "placements use two different accumulators (%s, %s)", acc.Name(), v.Name())
-			return
+			if report {
+				c.undecided("C19.i", fi.Name+"/row of placement", s.Pos(), "placements use two different accumulators (%s, %s)", acc.Name(), v.Name())
+			}
+			return nil
 		}
 		acc = v
 	}
 	if acc == nil {
-		return
+		return nil
 	}
-	isAcc := func(e ast.Expr) bool {
-		id, ok := unparen(e).(*ast.Ident)
-		return ok && info.ObjectOf(id) == types.Object(acc)
-	}
-	isParam := false
+	m := &c19AccModel{c: c, fi: fi, info: info, acc: acc, layout: layout}
 	if fi.Decl.Type.Params != nil {
 		for _, f := range fi.Decl.Type.Params.List {
 			for _, nm := range f.Names {
 				if info.ObjectOf(nm) == types.Object(acc) {
-					isParam = true
+					m.isParam = true
 				}
 			}
 		}
 	}
-	type event struct {
-		kind string // place, advance, reserve, rederive, clobber, foreign, childstore
-		obj  types.Object
-		pos  token.Pos
-		node ast.Node
+	return m
+}
+
+// init: the accumulator state at the entry of the function.
+func (m *c19AccModel) init() string {
+	if m.isParam {
+		return "S"
 	}
-	objName := func(o types.Object) string {
-		if o == nil {
-			return "?"
-		}
-		return o.Name()
-	}
-	eventsOf := func(n ast.Node) []event {
+	return "E"
+}
+
+// events: the accumulator events of one CFG node, in evaluation order.
+func (m *c19AccModel) events(n ast.Node) []c19AccEvent {
+	type event = c19AccEvent
+	c, fi, info, acc, layout, isAcc := m.c, m.fi, m.info, m.acc, m.layout, m.isAcc
+	{
 		var evs []event
 		// calls first, in source order
 		inspectNoLit(n, func(m ast.Node) bool {
@@ -383,100 +420,118 @@ func c19ContiguityFn(c *Ctx, lf *c19LayoutFn, layout map[*types.Func]*c19LayoutF
 		}
 		return evs
 	}
-	type report struct {
-		pos token.Pos
-		why string
+}
+
+// step: the accumulator typestate after one event (why != "": a placement at a row that is not in sync).
+func (m *c19AccModel) step(cur string, ev c19AccEvent) (next, why string) {
+	objName := c19ObjName
+	switch ev.kind {
+	case "place":
+		switch {
+		case cur == "E" || cur == "S":
+			cur = "P:" + objName(ev.obj)
+		case strings.HasPrefix(cur, "R:"):
+			if cur == "R:"+objName(ev.obj) {
+				cur = "S"
+			} else {
+				why = "the row was lowered by the height of " + cur[2:] + " but " + objName(ev.obj) + " is placed there: the children overlap or leave a hole"
+				cur = "S"
+			}
+		case strings.HasPrefix(cur, "P:"):
+			why = "the previous child (" + cur[2:] + ") was placed at the same accumulated row and the row was not advanced by its height: the children overlap"
+			cur = "P:" + objName(ev.obj)
+		default:
+			why = "the accumulated row is stale here (it was changed without a placement, or the surface was handed to another layout function that may have re-flowed the children, and it was not re-derived from the last child): the item is not placed directly below the previous one"
+			cur = "P:" + objName(ev.obj)
+		}
+	case "advance":
+		switch {
+		case cur == "E":
+		case cur == "P:"+objName(ev.obj):
+			cur = "S"
+		default:
+			cur = "X"
+		}
+	case "reserve":
+		switch {
+		case cur == "E" || cur == "S":
+			cur = "R:" + objName(ev.obj)
+		default:
+			cur = "X"
+		}
+	case "rederive":
+		cur = "S"
+	case "clobber":
+		if cur != "E" {
+			cur = "X"
+		}
+	case "foreign":
+		cur = "X"
+	case "childstore":
+		if cur != "E" {
+			cur = "X"
+		}
 	}
+	return cur, why
+}
+
+// emptyOnEdge: the surfaces X for which the branch edge establishes len(X.Children) <= 0.
+func (m *c19AccModel) emptyOnEdge(cd *Cond, truth bool) []ast.Expr {
+	info := m.info
+	var out []ast.Expr
+	atoms := condAtoms(info, cd, truth)
+	inspectNoLit(cd.Expr, func(n ast.Node) bool {
+		call, ok := n.(*ast.CallExpr)
+		if !ok || c19IsBuiltin(info, call, "len") == "" || len(call.Args) != 1 {
+			return true
+		}
+		sel, ok := unparen(call.Args[0]).(*ast.SelectorExpr)
+		if !ok || sel.Sel.Name != "Children" || !c19IsSurfaceType(info.TypeOf(sel.X)) {
+			return true
+		}
+		if impliesLin(atoms, termOf(info, call), Term{}, 0) {
+			out = append(out, sel)
+		}
+		return true
+	})
+	return out
+}
+
+func c19ContiguityFn(c *Ctx, lf *c19LayoutFn, layout map[*types.Func]*c19LayoutFn) *c19AccModel {
+	m := c19NewAccModel(c, lf, layout, true)
+	if m == nil {
+		return nil
+	}
+	fi, info, acc := m.fi, m.info, m.acc
+	g := c.P.Graph(fi)
 	bad := map[ast.Node]string{}
 	seenSite := map[ast.Node]bool{}
 	fl := &tsFlow{g: g}
 	fl.transfer = func(l Loc, n ast.Node, s string) []string {
 		cur := s
-		for _, ev := range eventsOf(n) {
+		for _, ev := range m.events(n) {
 			if os.Getenv("C19DBG") != "" {
-				fmt.Fprintf(os.Stderr, "%s %s: %s obj=%s in=%s\n", fi.Name, c.P.Pos(ev.pos), ev.kind, objName(ev.obj), cur)
+				fmt.Fprintf(os.Stderr, "%s %s: %s obj=%s in=%s\n", fi.Name, c.P.Pos(ev.pos), ev.kind, c19ObjName(ev.obj), cur)
 			}
-			switch ev.kind {
-			case "place":
+			if ev.kind == "place" {
 				seenSite[ev.node] = true
-				switch {
-				case cur == "E" || cur == "S":
-					cur = "P:" + objName(ev.obj)
-				case strings.HasPrefix(cur, "R:"):
-					if cur == "R:"+objName(ev.obj) {
-						cur = "S"
-					} else {
-						bad[ev.node] = "the row was lowered by the height of " + cur[2:] + " but " + objName(ev.obj) + " is placed there: the children overlap or leave a hole"
-						cur = "S"
-					}
-				case strings.HasPrefix(cur, "P:"):
-					bad[ev.node] = "the previous child (" + cur[2:] + ") was placed at the same accumulated row and the row was not advanced by its height: the children overlap"
-					cur = "P:" + objName(ev.obj)
-				default:
-					if bad[ev.node] == "" {
-						bad[ev.node] = "the accumulated row is stale here (it was changed without a placement, or the surface was handed to another layout function that may have re-flowed the children, and it was not re-derived from the last child): the item is not placed directly below the previous one"
-					}
-					cur = "P:" + objName(ev.obj)
-				}
-			case "advance":
-				switch {
-				case cur == "E":
-				case cur == "P:"+objName(ev.obj):
-					cur = "S"
-				default:
-					cur = "X"
-				}
-			case "reserve":
-				switch {
-				case cur == "E" || cur == "S":
-					cur = "R:" + objName(ev.obj)
-				default:
-					cur = "X"
-				}
-			case "rederive":
-				cur = "S"
-			case "clobber":
-				if cur != "E" {
-					cur = "X"
-				}
-			case "foreign":
-				cur = "X"
-			case "childstore":
-				if cur != "E" {
-					cur = "X"
-				}
+			}
+			var why string
+			cur, why = m.step(cur, ev)
+			if why != "" && (bad[ev.node] == "" || !strings.HasPrefix(why, "the accumulated row is stale")) {
+				bad[ev.node] = why
 			}
 		}
 		return []string{cur}
 	}
 	fl.refine = func(b *cfg.Block, cd *Cond, truth bool, s string) []string {
 		// an edge on which len(X.Children) <= 0 holds: no children, the accumulator is free again
-		empty := false
-		atoms := condAtoms(info, cd, truth)
-		inspectNoLit(cd.Expr, func(n ast.Node) bool {
-			call, ok := n.(*ast.CallExpr)
-			if !ok || c19IsBuiltin(info, call, "len") == "" || len(call.Args) != 1 {
-				return true
-			}
-			sel, ok := unparen(call.Args[0]).(*ast.SelectorExpr)
-			if !ok || sel.Sel.Name != "Children" || !c19IsSurfaceType(info.TypeOf(sel.X)) {
-				return true
-			}
-			if impliesLin(atoms, termOf(info, call), Term{}, 0) {
-				empty = true
-			}
-			return true
-		})
-		if empty {
+		if len(m.emptyOnEdge(cd, truth)) > 0 {
 			return []string{"E"}
 		}
 		return []string{s}
 	}
-	init := "E"
-	if isParam {
-		init = "S"
-	}
-	fl.run(init)
+	fl.run(m.init())
 	for _, s := range lf.sites {
 		_, row, _, _ := c19Placement(info, s)
 		if v := c19PlainVar(info, row); v == nil || v != acc {
@@ -493,33 +548,7 @@ func c19ContiguityFn(c *Ctx, lf *c19LayoutFn, layout map[*types.Func]*c19LayoutF
 			c.ok("C19.i", key, s.Pos(), "every path to this placement leaves %s equal to the bottom of the last child (or lowered by the height of the child placed, or no child exists)", acc.Name())
 		}
 	}
-	// upward stacking inserts at the front, downward stacking appends: Children stay in top-to-bottom order
-	inspectNoLit(fi.Decl.Body, func(n ast.Node) bool {
-		as, ok := n.(*ast.AssignStmt)
-		if !ok || len(as.Lhs) != 1 || len(as.Rhs) != 1 || !c19IsChildrenStore(info, as.Lhs[0]) {
-			return true
-		}
-		call, ok := unparen(as.Rhs[0]).(*ast.CallExpr)
-		if !ok {
-			return true
-		}
-		fn := calleeOf(info, call)
-		if fn == nil || !c19IsSlicesInsert(fn) || len(call.Args) < 3 {
-			return true
-		}
-		// is the accumulator lowered in this function?
-		lowered := containsNode(fi.Decl.Body, func(m ast.Node) bool {
-			st, ok := m.(*ast.AssignStmt)
-			return ok && st.Tok == token.SUB_ASSIGN && len(st.Lhs) == 1 && isAcc(st.Lhs[0])
-		})
-		if !lowered {
-			return true
-		}
-		v, isC := constInt(info, call.Args[1])
-		c.check(isC && v == 0, "C19.i", fi.Name+"/a child stacked upward is inserted at the front of the children", call.Pos(),
-			"slices.Insert(..., 0, child) while the row decreases", "the child that is stacked above the others is not inserted at index 0: the children are no longer in top-to-bottom order (the cursor index and the scroll anchor computed from the child index are wrong)")
-		return true
-	})
+	return m
 }
 
 func c19IsChildrenStore(info *types.Info, lh ast.Expr) bool {
